@@ -1,29 +1,64 @@
 SPEC = {
     "property": "C16",
-    "rule": "random histories of 5-40 (config mixed) or 60-200 (config lazy_long) operations {insert_simplex, remove_simplex of "
-            "maximal / non-maximal / absent / empty simplices, remove_vertex, contraction of adjacent and non-adjacent vertices} "
-            "over 3-7 labels from 4 label universes (small, sparse incl. >2^32 and >2^63, descending); the same history drives "
-            "Toplex_map and Lazy_toplex_map; after every step membership of all 2^m-1 non-empty label subsets of both maps, and "
-            "maximal_simplices / maximality / maximal_cofaces / counts of the eager map, are compared with a bitmask model. "
+    "rule": "random histories of 5-40 (config mixed) or 60-200 (config lazy_long) operations {insert_simplex, insert_independent_simplex "
+            "(only where its documented precondition holds in the model), remove_simplex of maximal / non-maximal / absent / empty simplices, "
+            "remove_vertex of present and absent vertices, contraction of adjacent, non-adjacent, absent and identical (x, x) vertices} over "
+            "3-7 labels from 5 label universes (small, sparse incl. >2^32 and >2^63, descending, and one containing SIZE_MAX and its "
+            "neighbours); a quarter of the simplex arguments is passed as a shuffled std::vector with one repeated entry instead of a std::set; "
+            "the same history drives Toplex_map and Lazy_toplex_map, each followed by ITS OWN bitmask model (they differ after a contraction "
+            "for which the two maps return different survivors; the history simply goes on); after every step membership of all 2^m-1 "
+            "non-empty label subsets of both maps (every 7th query as a vector with a repeated entry), maximal_simplices / maximality / "
+            "maximal_cofaces / counts of the eager map, num_vertices of both, and the stability of each map's own answer for the empty "
+            "simplex (set form == vector form == answer after the query sweep) are checked; a std::exception escaping from any call is a "
+            "violation of that map for that operation. "
+            "Config lazy_pressure (sparse observation): 60-220 operations over 10-16 labels, simplices of <= 4 (<= 3 above 13 labels) vertices, "
+            "90-97% insertions, the rest remove_simplex / remove_vertex (present vertices) / contraction (x != y) / remove_simplex({}); nothing "
+            "but the non-cleaning getters (num_vertices, num_maximal_simplices) is called between observations, which happen every 2 or 8 "
+            "steps (6 sampled membership queries), every 32 steps (sweep) or only at the end (sweep; half of the cases), so that the lazy "
+            "map's deferred 'memory pressure' cleaning inside insert_simplex runs (counter lazy.pressure_clean_observed = number of stored "
+            "simplices dropped inside an insertion); generator biases there: labels that left the complex rest for 4-60 insertions, one case "
+            "in three contracts two present labels (the larger label first) within the first 8 operations, about one in four grows stars "
+            "around two hub labels, half of those tear the first hub's star down vertex by vertex. "
             "non-trivial = history (distinct by hash) that removes a non-maximal simplex, a vertex, or contracts, and reaches >= 3 toplexes",
-    "assumptions": ["remove_vertex is only called on present vertices (t0.at would throw otherwise)",
-                    "membership of the empty simplex is not compared (the two maps document different conventions)",
+    "assumptions": ["membership of the empty simplex is not compared with a model nor between the maps (no documented convention; the two maps differ); "
+                    "only its stability under queries and its independence of the range type are checked",
+                    "insert_independent_simplex is only called when the simplex is absent from the model and contains no maximal simplex of the model "
+                    "(documented precondition); unitary_collapse and Lazy_toplex_map::all_facets_inside are not exercised",
+                    "config lazy_pressure: sweeps query all subsets of at most maxsz+1 labels only (no simplex of the model has more than maxsz labels "
+                    "and both maps answer membership by inclusion in a stored simplex, so a wrong answer on a larger set shows on such a subset); "
+                    "the eager map's maximality / maximal_cofaces are not swept there; remove_vertex of absent vertices, contraction(x, x) and "
+                    "vector-with-duplicate arguments are left to the dense configs there",
+                    "ranges with repeated entries are taken to denote the set of their entries (Lazy_toplex_map and every other Toplex_map entry "
+                    "point convert the range to a std::set)",
+                    "copying a Lazy_toplex_map (implicit copy constructor) is not exercised",
                     "bitmask model in harness/c16_toplex/c16_toplex.cpp is the trusted oracle"],
     "units": [
         {"name": "toplex", "src": ["c16_toplex.cpp"], "variant": "asan",
-         "configs": {"mixed": {"quick": 4000, "thorough": 400000}, "lazy_long": {"quick": 600, "thorough": 60000}}, "chunk": 50},
+         "configs": {"mixed": {"quick": 4000, "thorough": 400000}, "lazy_long": {"quick": 600, "thorough": 60000},
+                     "lazy_pressure": {"quick": 1600, "thorough": 100000}}, "chunk": 50},
         {"name": "toplex_g", "src": ["c16_toplex.cpp"], "variant": "gasan", "tiers": ["thorough"],
          "configs": {"mixed": {"thorough": 100000}}, "chunk": 50},
     ],
-    "floors": {"quick": {"op.remove_simplex.nonmaximal": 1000, "op.contraction.adjacent": 500, "op.contraction.non_adjacent": 200,
-                         "op.remove_vertex": 500, "_distinct_nontrivial": 1000},
-               "thorough": {"op.remove_simplex.nonmaximal": 100000, "_distinct_nontrivial": 100000}},
+    "floors": {"quick": {"op.remove_simplex.nonmaximal": 5000, "op.contraction.adjacent": 2500, "op.contraction.non_adjacent": 3000,
+                         "op.remove_vertex": 8000, "_distinct_nontrivial": 2400,
+                         # input classes added after the audit (about half of what seed 1 measures)
+                         "op.contraction.same_vertex": 2500, "op.remove_vertex.absent": 2500, "steps.two_models": 9000,
+                         "op.insert_independent.eager": 4000, "op.insert_independent.lazy": 4000,
+                         "op.insert.vector_with_duplicate": 12000, "op.remove_simplex.vector_with_duplicate": 3000,
+                         "cmp.membership_vector_dup": 1500000, "op.insert.max_label": 6000, "cmp.empty_simplex_stable": 170000,
+                         "lazy.pressure_clean_observed": 400, "sparse.early_contraction": 250},
+               "thorough": {"op.remove_simplex.nonmaximal": 100000, "_distinct_nontrivial": 100000, "lazy.pressure_clean_observed": 20000,
+                            "op.contraction.same_vertex": 100000, "op.remove_vertex.absent": 100000, "steps.two_models": 400000}},
     "manifest": {
         "text": "Runtime monitor: thousands of random operation histories drive Toplex_map and Lazy_toplex_map side by side under ASan+UBSan; "
-                "after every step the full membership table (all non-empty subsets of the label universe) and the eager map's stored toplexes "
-                "are compared with an independent bitmask model. Held-on-what-was-observed, not a proof; adequate because the state space per "
-                "history is tiny (<= 7 labels) and every query is swept exhaustively at every step.",
-        "note": "trusted: the bitmask complex model in the harness, libstdc++; remove_vertex only on present vertices; empty-simplex membership not compared",
-        "technique": "runtime monitoring: randomized operation histories + reference-model oracle after every step, under AddressSanitizer/UBSan",
+                "each map is followed by its own independent bitmask model of the abstract complex, and after every step the full membership "
+                "table (all non-empty subsets of the label universe) and the eager map's stored toplexes are compared with it. A third "
+                "workload observes the lazy map only sparsely so that its deferred cleaning (inside insertions) really runs, on 10-16 labels. "
+                "Held-on-what-was-observed, not a proof; adequate because the state space per history is small and every query is swept "
+                "exhaustively (<= 7 labels) or up to the model's dimension + 1 (10-16 labels).",
+        "note": "trusted: the bitmask complex model in the harness, libstdc++; empty-simplex membership is only checked for stability, not against a model; "
+                "insert_independent_simplex only inside its documented precondition",
+        "technique": "runtime monitoring: randomized operation histories + reference-model oracle after every step (or sparsely, to let deferred cleaning run), "
+                     "under AddressSanitizer/UBSan",
     },
 }
